@@ -17,7 +17,8 @@ EXPLANATION = (
     "by a raw String; (R4) keyword / built-in name recognition goes through cmp_str or "
     "eq_ignore_ascii_case; (R5) exactly the CR[LF] and LF line endings are recognised; (R6) the "
     "lexer never matches an ASCII letter constant exactly; (R7) two characters of program text are "
-    "never compared (order or equality) without case folding; (R10) every parser function that recognises the end of a line as the end of something recognises a colon too, or is tabled with the reason a colon is no alternative there; (R11) no token rule of the lexer raises a fatal error, because the lexer also tokenises comment and string text; (R12) every use of the one-token end-of-statement lookahead skips optional blanks first; (R13) the guard of the CR LF look-ahead in create_row_col_view is exactly `the next character exists` (not stronger); (R14) the parenthesis-only parser is used by the list of primary expressions only, so an operand that starts with `(` directly after a keyword is still a whole expression; (R15) every parser that consumes a line end as a separator is followed by the repetition that skips blank lines and indentation; (R16) the label parser accepts the name and the colon only when adjacent (no optional part before the colon in its combinator type), so `Name : Next` stays a call followed by a separator; (R17) only the functions the Eol token is made of, and the row/column table, contain a CR or LF character constant - nothing else decides where a line ends.")
+    "never compared (order or equality) without case folding; (R10) every parser function that recognises the end of a line as the end of something recognises a colon too, or is tabled with the reason a colon is no alternative there; (R11) no token rule of the lexer raises a fatal error, because the lexer also tokenises comment and string text; (R12) every use of the one-token end-of-statement lookahead skips optional blanks first; (R13) the guard of the CR LF look-ahead in create_row_col_view is exactly `the next character exists` (not stronger); (R14) the parenthesis-only parser is used by the list of primary expressions only, so an operand that starts with `(` directly after a keyword is still a whole expression; (R15) every parser that consumes a line end as a separator is followed by the repetition that skips blank lines and indentation; (R16) the label parser accepts the name and the colon only when adjacent (no optional part before the colon in its combinator type), so `Name : Next` stays a call followed by a separator; (R17) only the functions the Eol token is made of, and the row/column table, contain a CR or LF character constant - nothing else decides where a line ends."
+    " (R2, extended) the scan for case-sensitive text comparisons includes the crate of the case-insensitive string type itself.")
 NOT_DECIDED = [
     "equality of parse trees under layout transformations (blanks, comments, colon vs newline)",
     "row counting in create_row_col_view beyond the CR / LF guards and the tightness of the CR LF look-ahead guard (R13)",
@@ -127,7 +128,9 @@ def r2_raw_comparisons(ctx, rule="C09.R2"):
     allowed = {e["function"]: e["reason"] for e in table["run_time_data"]}
     n = 0
     for fn in sorted(prog.fns.values(), key=lambda f: f.id):
-        if fn.crate not in ("rusty_parser", "rusty_linter", "rusty_basic") or fn.kind == "const":
+        # rusty_common holds the case-insensitive string type itself: a helper added to it that goes through
+        # Deref to the std string methods compares case-sensitively behind a case-insensitive name
+        if fn.crate not in ("rusty_parser", "rusty_linter", "rusty_basic", "rusty_common") or fn.kind == "const":
             continue
         if common.is_derived(fn):
             continue
